@@ -588,9 +588,12 @@ def _type_to_json(t: Type[Any]) -> Dict[str, str]:
 
 
 def _builtin_function_to_json(f: Any) -> Dict[str, str]:
+  # NOTE: functions implemented in C live in many modules (`math.sqrt`,
+  # `operator.add`), not only in `builtins`.
+  module = getattr(f, '__module__', None) or 'builtins'
   return {
       JSONConvertible.TYPE_NAME_KEY: 'function',
-      'name': f'builtins.{f.__name__}'
+      'name': f'{module}.{f.__name__}'
   }
 
 
